@@ -111,7 +111,8 @@ def binop_grid_tie(ctx, differ):
             for da, db, la, lb in doms:
                 exprs.append(f"map (fun p => show_res (opt_binop B_{op} (fst p) (snd p) {pcn})) (list_prod {da} {db})")
                 meta.append((op, pv, la, lb))
-    outs = coqrun.eval_cases(IMPORTS + defs, exprs, "c15binop", shard=(len(exprs) + 3) // 4, timeout=220)
+    outs = coqrun.eval_cases(IMPORTS + defs, exprs, "c15binop", shard=(len(exprs) + 3) // 4,
+                             timeout=220 if ctx.tier != "thorough" else 900)
     n, rewrites, mism = 0, 0, []
     for (op, pv, la, lb), o in zip(meta, outs):
         strs = STRS.findall(o)
@@ -251,7 +252,9 @@ def tree_tie(ctx, differ):
     imports = ("From Verif Require Import Base.PyInt C15.Syntax C15.GenUtils C15.Optimizer C15.OptTree.\n"
                "Open Scope string_scope.\n")
     exprs = [f"show_opt (optimize {'true' if ev == 'cancun' else 'false'} {c})" for (_t, ev, c, _s) in cases]
-    outs = coqrun.eval_cases(imports, exprs, "c15tree", shard=(len(exprs) + 2) // 3, timeout=220)
+    nsh = 3 if ctx.tier != "thorough" else 6
+    outs = coqrun.eval_cases(imports, exprs, "c15tree", shard=(len(exprs) + nsh - 1) // nsh,
+                             timeout=220 if ctx.tier != "thorough" else 1200)
     changed, merged, outcomes, mism, declined = 0, 0, {}, [], 0
     for (t, ev, _c, s0), o in zip(cases, outs):
         m = o.strip('"')
@@ -277,6 +280,28 @@ def tree_tie(ctx, differ):
     ctx.corr["tree_cases_declined"] = declined
     if declined * 20 > len(cases):
         ctx.violation("correspondence-broken", "the optimize model declines too many trees", {"declined": declined})
+    # observation: a sample of the trees executed with and without the optimisers on the EVM
+    def as_program(t):
+        body = t if IRnode.from_list(t).valency == 0 else ["mstore", 0, t]
+        return ["with", "x", ["calldataload", 0], ["with", "y", ["calldataload", 32], ["seq", body, ["return", 0, 256]]]]
+
+    nrun = 0
+    for (t, ev, _c, s0) in cases[:(120 if ctx.tier != "thorough" else 1500)]:
+        if ev != "cancun" or "dload" in s0 or "mcopy" in s0:
+            continue
+        ins = [(x, y, 1, 2) for x in (0, 5, W - 1) for y in (0, 1)]
+        try:
+            d = differ.run_program(as_program(t), ins)
+        except Exception:  # noqa: the random tree does not assemble (e.g. stack too deep)
+            continue
+        nrun += 1
+        if d is not None and "StaticAssertion" in str(d.get("iropt", "")):
+            d = None      # an (assert 0) in a branch that is not taken: compile-time rejection is by design
+        if d is not None:
+            d["tree"] = s0
+            failing(ctx, "optimised tree behaves differently from the unoptimised tree", d, key="tree:" + s0[:80])
+            break
+    ctx.corr["tree_cases_executed"] = nrun
     found = False
     for t, ev, s0, r, m in mism[:6]:
         # Search: execute the very tree with and without the optimiser (wrapped so that it leaves a result)
@@ -347,7 +372,9 @@ def peephole_tie(ctx):
                 continue      # big corpus assemblies: the whole-pipeline model and the two global passes
             exprs.append(tmpl.format(defs))
             meta.append((i, fn))
-    outs = coqrun.eval_cases(imports, exprs, "c15asm", shard=(len(exprs) + 2) // 3, timeout=220)
+    nsh = 3 if ctx.tier != "thorough" else 8
+    outs = coqrun.eval_cases(imports, exprs, "c15asm", shard=(len(exprs) + nsh - 1) // nsh,
+                             timeout=220 if ctx.tier != "thorough" else 1500)
     changed, bad = 0, None
     for (i, fn), o in zip(meta, outs):
         a = asms[i][1]
